@@ -485,7 +485,7 @@ def run(ctx):
         three("_cut", p_all, p_idx, p_seek)
 
     # every offset of a file in one model call (digests); quick: the short captures only, up to a budget of offsets
-    budget = 4000 if quick else 90000
+    budget = 4000 if quick else 200000
     sweeps = []
     order = sorted(caps, key=lambda c: len(c["file"]))
     if not quick:
